@@ -7,7 +7,7 @@
     calls on [Context::default()] (panicking calls included: the history goes on);
     [cx_run_op o] is one call.  All statements are for ARBITRARY histories. *)
 From Coq Require Import NArith String List.
-From Patronus Require Import Context ContextOracle ContextProofs.
+From Patronus Require Import Context ContextOracle ContextProofs ContextOracleProofs.
 Import ListNotations.
 Open Scope N_scope.
 
@@ -103,6 +103,26 @@ Theorem C12_lit_canonical :
 Proof. exact lit_value_canonical_lemma. Qed.
 Print Assumptions C12_lit_canonical.
 
+(** The extracted property oracle (Model/ContextOracle.v), which the driver evaluates on
+    the IMPLEMENTATION's observations, is passed by the model on every well-formed history
+    ([cx_hist_ok]: [symbol(name, ..)] is only called with a name reference that exists, as the
+    private constructor of [StringRef] enforces): no two references denote the same structure,
+    every observation made when a call returned still holds at the end, true/false are fixed and
+    the is_true / is_false flags agree with the values.  And [cx_keys_nodup] means [NoDup]. *)
+Theorem C12_oracle_passed_by_model :
+  forall ops, cx_hist_ok ops cx_default = true ->
+    let c := cx_exec ops cx_default in
+    cx_keys_nodup (cx_keys c) = true /\
+    cx_obs_stable (cx_keys c) (cx_observe ops cx_default) = true /\
+    cx_tf_ok (cx_keys c) (cx_true c) (cx_false c) = true /\
+    cx_all_flags_ok (cx_keys c) (cx_flags c) = true.
+Proof. exact model_oracle_lemma. Qed.
+Print Assumptions C12_oracle_passed_by_model.
+
+Theorem C12_oracle_nodup_is_NoDup : forall l, cx_keys_nodup l = true <-> NoDup l.
+Proof. exact cx_keys_nodup_spec. Qed.
+Print Assumptions C12_oracle_nodup_is_NoDup.
+
 (** Non-vacuity: a history with symbols sharing a name, a 65-bit literal built
     twice, a normalising slice, a composite builder, a panicking call in the middle
     and a rebuild at the end; the hypotheses of the theorems above are met and the
@@ -118,8 +138,10 @@ Example C12_example :
          CxPanic; CxOk (CxExpr 7); CxOk (CxExpr 4); CxOk (CxExpr 5)]) /\
   cx_lookup c 4 = Some (CnBVLiteral 8 65) /\ cx_words_at (cx_values c) 8 65 = [5; 1] /\
   cx_key_of c (CnBVSymbol 0 8) = CkSym (Some "a"%string) 8 /\
-  cx_true c = 1 /\ cx_false c = 0.
-Proof. vm_compute. repeat split. Qed.
+  cx_true c = 1 /\ cx_false c = 0 /\
+  cx_hist_ok C12_example_history cx_default = true /\
+  cx_observe C12_example_history cx_default <> [].
+Proof. vm_compute. repeat split. discriminate. Qed.
 
 (** the recorded finding, in the model: the words baa's shift_left leaves for
     65'h3 << 64 are [0; 3], not the canonical [0; 1] of the value 2^64, and
